@@ -12,7 +12,8 @@ From God Require Import C18.Spec C18.Model.
 
 Record case := mkcase {
   c_prim : nat;     (* 0 sf, 1 lc, 2 lim, 3 ref, 4 once, 5 spin, 6 done, 7 pool, 8 rm, 9 tl, 10 barrier, 11 managed, 12 immutable,
-                       13 SpinLock contention stress, 14 DoneChan concurrent-Close stress *)
+                       13 SpinLock contention stress, 14 DoneChan concurrent-Close stress,
+                       15 OnceGuard long run (2^n + 2 Takes: violations = Takes that returned true beyond the first) *)
   c_n : nat; c_m : nat;
   c_scripts : list (list op);
   c_sched : list lbl;
@@ -69,7 +70,7 @@ Definition stress_ok (c : case) : bool :=
   forallb (fun rs => match rs with [(r, b)] => Nat.leb 1 r && Nat.eqb b 0 | _ => false end) (c_results c).
 
 Definition model_ok (c : case) : bool :=
-  if Nat.eqb (c_prim c) 13 || Nat.eqb (c_prim c) 14 then stress_ok c else
+  if Nat.eqb (c_prim c) 13 || Nat.eqb (c_prim c) 14 || Nat.eqb (c_prim c) 15 then stress_ok c else
   if Nat.leb 100 (c_prim c) then free_ok c else
   match c_prim c with
   | 0 => let fin := replay SF.step SF.busy fuel (threads_of c) (c_sched c) (SF.init (scripts_of c)) in
@@ -110,7 +111,7 @@ Definition spec_ok (c : case) : bool :=
   | 8 => rm_accepts (c_hist c) && complete (c_hist c)
   | 9 => linearizable (tl_sstep (c_n c)) LIM.init (c_hist c) && tl_timeouts_ok (c_hist c) []
   | 10 => lc_accepts (c_hist c) && complete (c_hist c)
-  | 13 | 14 => stress_ok c
+  | 13 | 14 | 15 => stress_ok c
   | 11 => linearizable MR.sstep (0, 0) (c_hist c)
   | 12 => ir_accepts (c_m c) (c_hist c) && complete (c_hist c)
   | _ => false
